@@ -2,7 +2,6 @@
 
 import functools as ft
 import json
-import re
 import warnings
 from inspect import signature
 
@@ -319,7 +318,7 @@ class BluePrint:
                     i,
                     knowfunctions[seg_dict["function"]],
                     arguments,
-                    name=re.sub(r"\d", "", seg_dict["name"]),
+                    name=cls._basename(seg_dict["name"]),
                     dur=seg_dict["durations"],
                 )
             bp_sum = bp_sum + bp_seg
